@@ -500,6 +500,7 @@ func run(id, tier, replay string) int {
 	fmt.Printf("%s %s: %d evaluations, %d distinct non-trivial, %d violation(s), %.1fs\n", id, tier, evals, distinct, len(viols), time.Since(start).Seconds())
 	if len(viols) > 0 {
 		// one line per distinct failure message (shards usually shrink to the same case), at most 8
+		sort.SliceStable(viols, func(i, j int) bool { return len(viols[i].Msg) < len(viols[j].Msg) })
 		seen := map[string]bool{}
 		shown := 0
 		for _, v := range viols {
